@@ -86,6 +86,7 @@ type Env struct {
 	Faults   map[int]FaultKind // by adapter-call index within the operation
 	Outcomes []string          // consumed by user-function invocations in order
 	Stale    int               // first Lookup of the operation answers with the version this many writes back
+	AckIgn   bool              // the streamer's acknowledgement does not look at the context in this operation (as memstreamer's): it takes effect under a cancelled lease
 }
 
 func (e Env) String() string {
@@ -105,7 +106,11 @@ func (e Env) String() string {
 	if len(e.Outcomes) > 0 {
 		o = strings.Join(e.Outcomes, ",")
 	}
-	return fmt.Sprintf("f=%s o=%s s=%d", f, o, e.Stale)
+	a := ""
+	if e.AckIgn {
+		a = " a=1"
+	}
+	return fmt.Sprintf("f=%s o=%s s=%d%s", f, o, e.Stale, a)
 }
 
 // ---------- the world: reference adapters + trace ----------
@@ -231,7 +236,7 @@ func (w *World) call(ctx context.Context, label string, eff func() (string, erro
 	defer w.mu.Unlock()
 	proc := w.S.Current()
 	w.Mon.adapterCall(ctx, proc, label)
-	if ctx != nil && ctx.Err() != nil && !(w.IgnoreCancel && (label == "store" || label == "lookup" || label == "latest")) {
+	if ctx != nil && ctx.Err() != nil && !(w.IgnoreCancel && (label == "store" || label == "lookup" || label == "latest")) && !(w.env.AckIgn && strings.HasPrefix(label, "ack(")) {
 		w.ob("%s~", label)
 		return ctx.Err()
 	}
